@@ -92,9 +92,17 @@ pub fn resolve(file: &str, fdt: &str) -> Vec<String> {
     r
 }
 
-fn has_ws(s: &str) -> bool {
-    s.contains('\t') || s.contains('\n') || s.contains('\r')
+/// what a conformant XML 1.0 reader makes of a string written literally into an attribute value (§2.11 + §3.3.3)
+pub fn norm_attr(s: &str) -> String {
+    s.replace("\r\n", " ").replace(['\r', '\n', '\t'], " ")
 }
+
+/// ... and into element content (§2.11 end-of-line handling)
+pub fn norm_text(s: &str) -> String {
+    s.replace("\r\n", "\n").replace('\r', "\n")
+}
+
+pub const WS_CLASS: &str = "xml-unescaped-tab-lf-cr";
 
 pub fn cc_token(cc: &Option<Cc>, t_pub: u64) -> String {
     match cc {
@@ -124,9 +132,11 @@ pub fn check_content(eng: &FdtEngine, what: &str, line: &str, t_pub: u64, snaps:
     if p.exp != want_exp.to_string() {
         o.fail("expires", &format!("{}: Expires={} but publish time {} us + duration {} us gives {}", what, p.exp, t_pub, cfg.dur_us, want_exp));
     }
-    let want_groups = list_hx(cfg.groups.as_deref().unwrap_or(&[]));
+    let cg: Vec<String> = cfg.groups.clone().unwrap_or_default();
+    let want_groups = list_hx(&cg);
     if p.groups != want_groups {
-        o.fail("fdt-groups", &format!("{}: FDT-level groups {} != configured {}", what, p.groups, want_groups));
+        let normed: Vec<String> = cg.iter().map(|x| norm_text(x)).collect();
+        o.fail(if p.groups == list_hx(&normed) { WS_CLASS } else { "fdt-groups" }, &format!("{}: FDT-level groups {} != configured {}", what, p.groups, want_groups));
     }
     let got: Vec<String> = p.files.iter().map(|f| f.toi.clone()).collect();
     let ok_set = snaps.iter().any(|s| s.iter().map(|t| t.to_string()).collect::<Vec<_>>() == got);
@@ -145,22 +155,24 @@ pub fn check_content(eng: &FdtEngine, what: &str, line: &str, t_pub: u64, snaps:
             Some(ob) => ob,
             None => continue,
         };
-        let mut cmp = |class: &str, got: &str, want: String, orig: &str| {
+        // `alt` = the value a conformant reader derives from the literally written string; a difference that is exactly
+        // that normalisation is the recorded finding fdtabs-1, any other difference is the attribute's own class
+        let mut cmp = |class: &str, got: &str, want: String, alt: Option<String>| {
             if got != want {
-                let c = if has_ws(orig) { format!("{}-ws", class) } else { class.to_string() };
+                let c = if alt.as_deref() == Some(got) { WS_CLASS.to_string() } else { class.to_string() };
                 o.fail(&c, &format!("{}: TOI {} {}: read {} announced {}", what, toi, class, &got[..got.len().min(120)], &want[..want.len().min(120)]));
             }
         };
-        cmp("attr-location", &f.loc, hx(&ob.loc), &ob.loc);
-        cmp("attr-content-length", &f.clen, ob.clen.to_string(), "");
-        cmp("attr-transfer-length", &f.tlen, ob.tlen.to_string(), "");
-        cmp("attr-type", &f.ctype, hx(&ob.ctype), &ob.ctype);
-        cmp("attr-encoding", &f.cenc, if ob.cenc == 0 { "~".into() } else { cenc_of(ob.cenc).to_str().to_string() }, "");
-        cmp("attr-md5", &f.md5, opt_hx(&ob.md5), ob.md5.as_deref().unwrap_or(""));
-        cmp("attr-etag", &f.etag, opt_hx(&ob.etag), ob.etag.as_deref().unwrap_or(""));
+        cmp("attr-location", &f.loc, hx(&ob.loc), Some(hx(&norm_attr(&ob.loc))));
+        cmp("attr-content-length", &f.clen, ob.clen.to_string(), None);
+        cmp("attr-transfer-length", &f.tlen, ob.tlen.to_string(), None);
+        cmp("attr-type", &f.ctype, hx(&ob.ctype), Some(hx(&norm_attr(&ob.ctype))));
+        cmp("attr-encoding", &f.cenc, if ob.cenc == 0 { "~".into() } else { cenc_of(ob.cenc).to_str().to_string() }, None);
+        cmp("attr-md5", &f.md5, opt_hx(&ob.md5), Some(opt_hx(&ob.md5.as_ref().map(|x| norm_attr(x)))));
+        cmp("attr-etag", &f.etag, opt_hx(&ob.etag), Some(opt_hx(&ob.etag.as_ref().map(|x| norm_attr(x)))));
         let g = ob.groups.clone().unwrap_or_default();
-        cmp("attr-groups", &f.groups, list_hx(&g), &g.join(""));
-        cmp("attr-cache", &f.cc, cc_token(&ob.cc, t_pub), "");
+        cmp("attr-groups", &f.groups, list_hx(&g), Some(list_hx(&g.iter().map(|x| norm_text(x)).collect::<Vec<_>>())));
+        cmp("attr-cache", &f.cc, cc_token(&ob.cc, t_pub), None);
         let eff = effective_oti(cfg, ob);
         let want = oti_tokens(&eff);
         let got = resolve(&f.oti, &p.oti);
